@@ -158,14 +158,14 @@ DIRECTED = [
     # ---- timer-triggered export (tiny BatchTimeout): the worker has nothing else to do, the timer fires, the
     # export is held at the exporter's gate while a ForceFlush and a size-triggered batch pile up behind it
     dict(name="timer-vs-flush", producers=1, spansPer=4, qcap=4, maxbatch=2, flushers=1, stoppers=1, batchTimeoutUs=1500,
-         script=ends("p1:1") + ["w@bsp.worker.dequeued:p1:1", "w@bsp.worker.appended:p1:1"] + ends("p1:2", "p1:3") +
-         ["f1@call", "f1@bsp.ff.checked", "f1@bsp.ff.marker", "x@exp.begin", "w@bsp.worker.dequeued:p1:2",
-          "w@bsp.worker.appended:p1:2", "w@bsp.worker.dequeued:p1:3", "w@bsp.worker.appended:p1:3", "x@exp.begin",
-          "f1@bsp.ff.flushed"] + ends("p1:4") + ["w@bsp.worker.dequeued:p1:4", "w@bsp.worker.appended:p1:4", "x@exp.begin",
-                                                 "s1@call"]),
+         script=ends("p1:1") + ["w@bsp.worker.dequeued:p1:1", "w@bsp.worker.appended:p1:1", "x@exp.begin"] +   # the timer fired
+         ends("p1:2", "p1:3") + ["f1@call", "f1@bsp.ff.checked", "f1@bsp.ff.marker", "x@exp.end",
+                                 "w@bsp.worker.dequeued:p1:2", "w@bsp.worker.appended:p1:2", "w@bsp.worker.dequeued:p1:3",
+                                 "w@bsp.worker.appended:p1:3", "x@exp.begin", "x@exp.end", "f1@bsp.ff.flushed"] +
+         ends("p1:4") + ["w@bsp.worker.dequeued:p1:4", "w@bsp.worker.appended:p1:4", "x@exp.begin", "x@exp.end", "s1@call"]),
     dict(name="timer-vs-shutdown", producers=1, spansPer=2, qcap=4, maxbatch=4, flushers=0, stoppers=1, batchTimeoutUs=1500,
-         script=ends("p1:1") + ["w@bsp.worker.dequeued:p1:1", "w@bsp.worker.appended:p1:1"] + ends("p1:2") +
-         ["s1@call", "s1@bsp.sd.stopped", "s1@bsp.sd.closed", "x@exp.begin", "w@bsp.drain.dequeued:p1:2", "w@bsp.drain.empty"]),
+         script=ends("p1:1") + ["w@bsp.worker.dequeued:p1:1", "w@bsp.worker.appended:p1:1", "x@exp.begin"] + ends("p1:2") +
+         ["s1@call", "s1@bsp.sd.stopped", "s1@bsp.sd.closed", "x@exp.end", "w@bsp.drain.empty"]),
 ]
 # what each known-deviation schedule is expected to exhibit (binding of the gates; a note, never a verdict)
 EXPECT = {"D1-flush-during-shutdown": "flush-missed-during-shutdown", "D4-enqueue-after-drain": "shutdown-missed-raced",
@@ -240,11 +240,15 @@ def run(ctx):
     found["mc-noreset"] = r["violated"]
     if r["violated"] != "NoDup":
         ctx.note_inconclusive("model drift: keeping the batch after a failed export does not violate NoDup (%s)" % r["out"])
+    # the proposed repairs of D6 / D7 (proposed_fixes/C01-*.diff) on the model: with that shape neither deviation is reachable
+    ctx.tlc(S, "MC_BSP", "MC_BSP.cfg", name="mc-proposed-fixes", timeout=3000,
+            defines=mc_defs(1, 2 if thorough else 1, 1, 2, False, 1, 2, shape="proposed", inv="Stuck NoD6 NoD7",
+                            expiring=("f1", "s1", "s2") if thorough else ("f1", "s1")))
     ctx.extra["model_level_regressions"] = found
     # liveness under fairness: every call returns and every background goroutine finishes, with queues that fill
     live = [(2, 1, 1, 1, True, 1, 1), (2, 1, 1, 1, False, 1, 1)]
     if thorough:
-        live += [(2, 2, 1, 1, True, 1, 1), (2, 1, 2, 1, False, 1, 2)]
+        live += [(1, 3, 1, 1, True, 1, 1), (2, 1, 2, 1, False, 1, 2)]  # (2x2 blocking with a flusher: 1.8 M states, 14 min)
     for c in live:
         ctx.tlc(S, "MC_BSP", "MC_BSP_live.cfg", defines=mc_defs(*c), name="live-" + cfg_name(*c), timeout=3000)
     ctx.tlc(S, "MC_BSP", "MC_BSP_live.cfg", defines=mc_defs(1, 1, 1, 1, True, 1, 1, expiring=("f1", "s1")),
@@ -300,6 +304,10 @@ def run(ctx):
     for res in (res1, res2):
         for k, v in res["counters"].items():
             counters[k] = counters.get(k, 0) + v
+    # per-schedule follow rates are kept apart from the regime counters
+    ctx.extra["script_follow_rate"] = {k[9:]: "%d/%d" % (v, v + counters.get("desync:" + k[9:], 0))
+                                       for k, v in sorted(counters.items()) if k.startswith("followed:")}
+    counters = {k: v for k, v in counters.items() if not k.startswith(("followed:", "desync:"))}
     ctx.extra["counters"] = counters
     ctx.extra["tlc_behaviours_replayed"] = nbeh
     ctx.extra["directed_schedules"] = len(scenarios) - nbeh
